@@ -305,6 +305,14 @@ class CallMixin:
             raise OutsideSubset('str() of ' + str(v.ty))
         if name == 'repr':
             return [(st, fresh(TStr, 'repr'))]
+        if name == 'int' and len(args) == 1 and isinstance(args[0], SV) and args[0].ty in (TBool, TInt):
+            v = args[0]
+            return [(st, v if v.ty == TInt else SV(TInt, z3.If(v.t, z3.IntVal(1), z3.IntVal(0))))]
+        if name == 'print':
+            c = api.REGISTRY.get('builtins.print')
+            if c is None:
+                raise OutsideSubset('no assumed contract for builtins.print')
+            return self.apply_contract(st, c, args, kw, node)
         if name in ('int', 'float'):
             c = api.REGISTRY.get('builtins.' + name)
             if c is None:
